@@ -192,6 +192,132 @@ def read_patterns(ctx):
                                'stateful': str(got[j])[:300], 'functional': str(thread[j])[:300]})
 
 
+def seeding_history(ctx):
+    """seeding is about the generator only.  (a) set_seed in the MIDDLE of an episode leaves the state and its memoised observation alone,
+    and what follows is the functional threading from that state under the new seed.  (b) an environment that was never given a seed uses
+    the library-level generator of the moment: after the library is re-seeded, a used environment and a fresh one produce the same
+    trajectory as the functional threading."""
+    import gym_gridverse.rng as gvrng
+    r = ctx.rng
+    for k in range(12 if ctx.tier == 'quick' else 120):
+        desc = envs.rand_env(r)
+        if desc['reset']['name'] == 'memory':
+            continue
+        desc['obs'] = dict(desc['obs'], name=r.choice(['stochastic_raytracing', 'stochastic_raytracing', 'raytracing']))
+        desc['actions'] = list(range(8))
+        try:
+            a, b, c = comp.build_env(desc), comp.build_env(desc), comp.build_env(desc)
+        except Exception:  # noqa: BLE001
+            continue
+        acts = [r.randrange(8) for _ in range(r.randint(3, 10))]
+        s0, s1 = r.randrange(1 << 30), r.choice([0, 1, r.randrange(1 << 30)])
+
+        def go(env, acts):
+            out = []
+            for x in acts:
+                try:
+                    rw, dn = env.step(envs.ACTS[x])
+                    out.append((wire.cstate(env.state), float(rw).hex(), bool(dn)))
+                except Exception as e:  # noqa: BLE001
+                    out.append(('raised', type(e).__name__))
+            return out
+        try:
+            # (a)
+            a.set_seed(s0)
+            a.reset()
+            go(a, acts[:2])
+            o1, st1 = a.observation, a.state
+            cs1 = wire.cstate(st1)
+            a.set_seed(s1)
+            o2 = a.observation
+            ctx.case(('mid-episode seed', k), True, None)
+            ctx.count('seeding history', 'set_seed in the middle of an episode')
+            case = {'env': desc, 'seeds': [s0, s1], 'actions': acts}
+            if o2 is not o1 or wire.cstate(a.state) != cs1:
+                ctx.violation('set_seed in the middle of an episode dropped the memoised observation / changed the state', case)
+            got = go(a, acts)
+            b.set_seed(s1)
+            s = wire.mkstate(cs1)
+            exp = []
+            for x in acts:
+                try:
+                    s, rw, dn = b.functional_step(s, envs.ACTS[x])
+                    exp.append((wire.cstate(s), float(rw).hex(), bool(dn)))
+                except Exception as e:  # noqa: BLE001
+                    exp.append(('raised', type(e).__name__))
+            if got != exp and not any(x[0] == 'raised' for x in exp):
+                ctx.violation('after set_seed in the middle of an episode the stateful run is not the functional threading from the current state under the new seed', case)
+            # (b) never seeded: the library-level generator of the moment
+            lib = r.randrange(1 << 30)
+            gvrng.reset_gv_rng(r.randrange(1 << 30))
+            c.reset()
+            go(c, acts[:3])
+            c.observation
+            gvrng.reset_gv_rng(lib)
+            c.reset()
+            used = [wire.cstate(c.state)] + go(c, acts)
+            fresh_env = comp.build_env(desc)
+            gvrng.reset_gv_rng(lib)
+            s = fresh_env.functional_reset()
+            thread = [wire.cstate(s)]
+            for x in acts:
+                try:
+                    s, rw, dn = fresh_env.functional_step(s, envs.ACTS[x])
+                    thread.append((wire.cstate(s), float(rw).hex(), bool(dn)))
+                except Exception as e:  # noqa: BLE001
+                    thread.append(('raised', type(e).__name__))
+            ctx.case(('library reseed', k), True, None)
+            ctx.count('seeding history', 'library generator re-seeded under a used environment')
+            if used != thread and not any(x[0] == 'raised' for x in thread if isinstance(x, tuple) and x and x[0] == 'raised'):
+                ctx.violation('an environment without a seed of its own, used before, does not follow the re-seeded library generator: its run differs from the functional threading with the same library seed',
+                              dict(case, library_seed=lib))
+        finally:
+            gvrng.reset_gv_rng(None)
+
+
+def functional_is_functional(ctx):
+    """the functional interface depends on its ARGUMENT only, also when the argument happens to be the environment's own current state object
+    and an observation of it was memoised before: the state object is changed in place (turned, moved, a cell replaced) and
+    functional_observation / functional_step of it are compared with those of a freshly built equal state on a fresh environment"""
+    from gym_gridverse.geometry import Orientation, Position
+    from gym_gridverse.grid_object import Floor, Wall
+    r = ctx.rng
+    for k in range(15 if ctx.tier == 'quick' else 150):
+        desc = envs.rand_env(r)
+        if desc['reset']['name'] == 'memory':
+            continue
+        desc['obs'] = dict(desc['obs'], name=r.choice(['fully_transparent', 'partially_occluded', 'raytracing']))
+        desc['actions'] = list(range(8))
+        try:
+            env, ref = comp.build_env(desc), comp.build_env(desc)
+        except Exception:  # noqa: BLE001
+            continue
+        env.set_seed(r.randrange(1 << 30))
+        ref.set_seed(0)
+        try:
+            env.reset()
+            env.observation
+            st = env.state
+            h, w = st.grid.shape.height, st.grid.shape.width
+            st.agent.orientation = r.choice(list(Orientation))
+            free = [(y, x) for y in range(h) for x in range(w) if isinstance(st.grid[y, x], Floor)]
+            if free and r.random() < 0.7:
+                st.agent.position = Position(*r.choice(free))
+            y, x = r.randrange(1, max(2, h - 1)), r.randrange(1, max(2, w - 1))
+            if (y, x) != st.agent.position.yx:
+                st.grid[y, x] = r.choice([Floor, Wall])()
+            value = wire.cstate(st)
+            got = wire.cstate(env.functional_observation(st))
+            exp = wire.cstate(ref.functional_observation(wire.mkstate(value)))
+        except Exception:  # noqa: BLE001
+            continue
+        ctx.case(('functional-on-own-state', k), True, None)
+        ctx.count('functional interface on the own state object', desc['obs']['name'])
+        if got != exp:
+            ctx.violation('functional_observation of the environment\'s own (in place modified) state object is not the observation of that state: a memoised observation leaked into the functional interface',
+                          {'env': desc, 'state': gen.show_state(value)})
+
+
 def rejected_actions(ctx):
     """an action outside the action space is rejected with ValueError and changes NOTHING: same state, same (memoised) observation object,
     no randomness consumed -- with a stochastic observation function a dropped memo would show as a re-sampled observation"""
@@ -286,6 +412,8 @@ def run(ctx):
     seeded_threading(ctx, shipped)
     rejected_actions(ctx)
     read_patterns(ctx)
+    seeding_history(ctx)
+    functional_is_functional(ctx)
     # the outer environment over the same inner machine: inner and outer operations interleaved on one object stack (model: Gym.v)
     from vt.suites.C20 import check_jobs
     check_jobs(ctx, jobs[::2] if ctx.tier == 'quick' else jobs, ['io', 'io', 'o', 'oi'], length)
